@@ -213,10 +213,11 @@ enum Kind
   D_DESTROY,
   D_CREATE,
   N_INVOKE,
+  I_LOOKUP_FAIL,
   K_COUNT
 };
 static const char* kKind[] = { "ints",   "fp",     "enum", "ptrs",    "fn",     "struct",    "ret_struct",   "void",        "many",
-                               "u",      "addr",   "destroy", "create", "dylib_invoke", "dylib_destroy", "dylib_create", "noop_invoke" };
+                               "u",      "addr",   "destroy", "create", "dylib_invoke", "dylib_destroy", "dylib_create", "noop_invoke", "lookup_fails" };
 static_assert(sizeof(kKind) / sizeof(kKind[0]) == K_COUNT);
 
 typedef __int128 i128;
@@ -255,7 +256,7 @@ struct InvokeWorld : World
     int nsbx = (int)r.range(1, 3);
     p.cfg = { nsbx, r.chance(1, 2) };
     int n = (int)r.range(4, thorough ? 50 : 30);
-    std::vector<unsigned> w = { 10, 4, 4, 6, 8, 5, 5, 4, 4, 8, 8, 3, 4, 6, 2, 3, 2 };
+    std::vector<unsigned> w = { 10, 4, 4, 6, 8, 5, 5, 4, 4, 8, 8, 3, 4, 6, 2, 3, 2, 5 };
     for (auto& x : w)
       if (r.chance(1, 6))
         x = 0;
@@ -281,6 +282,7 @@ struct InvokeWorld : World
     TT<char*> buf = nullptr;
     TT<int*> ibuf = nullptr;
     bool have_addr[FN_COUNT] = {};
+    bool looked[FN_COUNT] = {}; // the name has been resolved successfully in this incarnation
     TT<void (*)(void)> addr_void = nullptr; // get_sandbox_function_address(f_void)
   };
   std::vector<SbxM> S;
@@ -335,6 +337,7 @@ struct InvokeWorld : World
       return false;
     }
     const GuestRec& r = g_glog.back();
+    m.looked[fn] = true;
     if (r.fn != fn) {
       C->violate("C11", std::string("wrong_function@") + opn, "%s ran instead of %s", kFnName[r.fn], kFnName[fn]);
       return false;
@@ -664,6 +667,8 @@ struct InvokeWorld : World
     m.lib = lib;
     for (auto& h : m.have_addr)
       h = false;
+    for (auto& l : m.looked)
+      l = false;
     attempt([&] {
       m.buf = m.sb->malloc_in_sandbox<char>(64);
       m.ibuf = m.sb->malloc_in_sandbox<int>(4);
@@ -717,6 +722,7 @@ struct InvokeWorld : World
         c.probe("two_or_more_live_instances");
       if (op.kind <= I_U && !m.created)
         continue;
+      g_fault.clear();
       switch (op.kind) {
         case I_INTS:
           op_ints(m, op);
@@ -819,6 +825,31 @@ struct InvokeWorld : World
                       got,
                       a + b + cc + 1000 * d.lib,
                       oname(o));
+          break;
+        }
+        case I_LOOKUP_FAIL: {
+          // the backend cannot resolve the name at this moment (F10): the invocation aborts before any guest code
+          // runs, and a later invocation of the same name behaves normally
+          if (!m.created)
+            break;
+          int fn = (op.a[1] & 1) ? FN_VOID : FN_ENUM;
+          if (m.looked[fn])
+            break;
+          g_fault.lookup_fail = 1;
+          size_t before = g_glog.size();
+          Outcome o = attempt([&] {
+            if (fn == FN_VOID)
+              m.sb->invoke_sandbox_function(f_void);
+            else
+              m.sb->invoke_sandbox_function(f_enum, RED, true);
+          });
+          bool consumed = g_fault.lookup_fail == 0;
+          g_fault.clear();
+          c.ev("lookup_fails %s -> %s", kFnName[fn], oname(o));
+          if (!consumed)
+            break; // the name was already cached through another path
+          if (o != ABORT || g_glog.size() != before)
+            c.violate("C11", "failed_symbol_lookup_did_not_abort_cleanly@lookup_fails", "outcome %s, %zu guest records", oname(o), g_glog.size() - before);
           break;
         }
         case N_INVOKE: {
